@@ -23,6 +23,7 @@ VARIABLES l,      \* index of the next event
           vts,    \* slot -> last logged state of that slot ([dead |-> TRUE] after a panic)
           gh,     \* slot -> ghost record (history the properties speak about)
           pp,     \* the stand-alone parser of C03 episodes (last logged state)
+          tcs,    \* util::TextCollector slots: [vt, carry, acc] (the Vt inside is not observable: predicted)
           cnt     \* how often each predicate was actually evaluated (vacuity guard, goes into the evidence)
 
 Dead == [dead |-> TRUE]
@@ -32,6 +33,8 @@ Ghost0 == [drained |-> <<>>,      \* every line handed out through Changes.scrol
            snap |-> NoLine,       \* primary buffer at the moment of entering the alternate screen (C16)
            snapResized |-> FALSE, \* a resize happened during the excursion
            entry |-> NoLine,      \* cursor at the moment of entering through ?1049h
+           savP |-> [known |-> TRUE, moved |-> FALSE, ctx |-> DefCtx],   \* most recent save on the primary screen (C17)
+           savA |-> [known |-> TRUE, moved |-> FALSE, ctx |-> DefCtx],   \* ... on the alternate screen
            dclass |-> {},         \* known-finding classes the state was in when dump() was taken (C11)
            lastText |-> <<>>,     \* the last text() output logged for this slot
            carry |-> <<>>]        \* TextUnwrapper carry of a collector slot
@@ -83,6 +86,37 @@ AltEntryMsgs(ll, prev, fns, cur) ==
         THEN <<>> ELSE <<Msg("FAIL C16", ll, "alternate screen not blank (current pen) on entry")>>)
   ELSE <<>>
 
+(* C17 ghost: what the most recent save on each screen recorded, maintained from   *)
+(* the one-function calls; anything murkier makes it unknown until the next save  *)
+IsSaveFn(fn) == fn.f \in {"Decsc", "Scosc"} \/ (fn.f = "Decset" /\ fn.a = <<1048>>)
+IsRestoreFn(fn) == fn.f \in {"Decrc", "Scorc"} \/ (fn.f = "Decrst" /\ fn.a = <<1048>>)
+TouchesCtx(fn) == IsSaveFn(fn) \/ fn.f \in {"Decstr", "Ris"} \/ (fn.f \in {"Decset", "Decrst"} /\ \E i \in 1..Len(fn.a) : fn.a[i] \in {1048, 1049})
+Saved(t) == [known |-> TRUE, moved |-> FALSE, ctx |-> CtxOf(t)]
+Fresh0 == [known |-> TRUE, moved |-> FALSE, ctx |-> DefCtx]
+Unknown == [known |-> FALSE, moved |-> FALSE, ctx |-> DefCtx]
+SaveGhost(g, prev, fns) ==     \* -> <<savP, savA>>
+  IF Len(fns) = 1 THEN
+    LET fn == fns[1] IN
+    IF IsSaveFn(fn) \/ (fn.f = "Decset" /\ fn.a = <<1049>>)
+    THEN (IF prev.t.alt THEN <<g.savP, Saved(prev.t)>> ELSE <<Saved(prev.t), g.savA>>)
+    ELSE IF fn.f = "Decstr" THEN (IF prev.t.alt THEN <<g.savP, Fresh0>> ELSE <<Fresh0, g.savA>>)
+    ELSE IF fn.f = "Ris" THEN <<Fresh0, Fresh0>>
+    ELSE IF TouchesCtx(fn) /\ ~IsRestoreFn(fn) /\ ~(fn.f = "Decrst" /\ fn.a = <<1049>>) THEN <<Unknown, Unknown>>
+    ELSE <<g.savP, g.savA>>
+  ELSE IF \E i \in 1..Len(fns) : TouchesCtx(fns[i]) THEN <<Unknown, Unknown>>
+  ELSE <<g.savP, g.savA>>
+RestoreGhostMsgs(ll, g, prev, fns, cur) ==
+  IF Len(fns) = 1 /\ (IsRestoreFn(fns[1]) \/ (fns[1].f = "Decrst" /\ fns[1].a = <<1049>> /\ prev.t.alt))
+  THEN LET sv == IF fns[1].f = "Decrst" /\ fns[1].a = <<1049>> THEN g.savP ELSE IF prev.t.alt THEN g.savA ELSE g.savP
+           u == cur.t IN
+       IF ~sv.known THEN <<>>
+       ELSE IF <<u.pen, u.origin, u.autowrap>> # <<sv.ctx.pen, sv.ctx.origin, sv.ctx.autowrap>>
+               \/ (~sv.moved /\ <<u.col, u.row>> # <<sv.ctx.col, sv.ctx.row>>)
+               \/ u.col >= u.cols \/ u.row >= u.rows \/ u.pw
+            THEN <<Msg("FAIL C17", ll, "restore does not re-establish the most recent save of this screen: saved " \o ToJson(sv.ctx))>>
+            ELSE <<>>
+  ELSE <<>>
+
 GhostStep(g, prev, fns, cur, dr) ==
   LET enters == ~prev.t.alt /\ cur.t.alt
       leaves == prev.t.alt /\ ~cur.t.alt
@@ -93,6 +127,8 @@ GhostStep(g, prev, fns, cur, dr) ==
                !.snap = IF hasRis \/ leaves \/ murky THEN NoLine
                         ELSE IF enters THEN [c |-> prev.t.buf.lines, w |-> FALSE] ELSE @,
                !.snapResized = IF enters THEN FALSE ELSE @,
+               !.savP = SaveGhost(g, prev, fns)[1],
+               !.savA = SaveGhost(g, prev, fns)[2],
                !.entry = IF hasRis \/ leaves \/ murky THEN NoLine
                          ELSE IF enters /\ Len(fns) = 1 /\ fns[1] = FS("Decset", <<1049>>)
                               THEN [c |-> <<Min2(prev.t.col, prev.t.cols - 1), prev.t.row>>, w |-> FALSE] ELSE @]
@@ -190,7 +226,7 @@ Handle(ll, e) ==
         e2 == IF k = "fc" THEN [ch |-> <<>>, dr |-> <<>>, consumed |-> TRUE, st |-> e.st, pre |-> prev.t]
               ELSE [ch |-> e.ch, dr |-> e.dr, consumed |-> e.consumed, st |-> e.st, pre |-> prev.t]
         g1 == GhostStep(gh[s], prev, fns, cur, IF k = "fc" THEN <<>> ELSE e.dr)
-        g2 == IF k = "rs" THEN [g1 EXCEPT !.resized = TRUE, !.snapResized = TRUE] ELSE g1
+        g2 == IF k = "rs" THEN [g1 EXCEPT !.resized = TRUE, !.snapResized = TRUE, !.savP.moved = TRUE, !.savA.moved = TRUE] ELSE g1
     IN [vts |-> [vts EXCEPT ![s] = cur], gh |-> [gh EXCEPT ![s] = g2],
         msgs |-> Conformance(ll, k, r, fns, e2, own)
                  \o StateMsgs(ll, prev, IF k = "rs" THEN <<>> ELSE fns, cur, e)
@@ -201,6 +237,7 @@ Handle(ll, e) ==
                  \o (IF k = "fs" /\ Len(fns) = 1 /\ StepProp(prev.t, fns[1]) # "none"
                        /\ ~StepOK(prev.t, fns[1], cur.t, e.ch, IF e.consumed THEN Drained(e.dr) ELSE Unread)
                      THEN <<Msg("FAIL " \o StepProp(prev.t, fns[1]), ll, "declarative step predicate fails for " \o ToJson(fns[1]))>> ELSE <<>>)
+                 \o (IF k = "rs" THEN <<>> ELSE RestoreGhostMsgs(ll, gh[s], prev, fns, cur))
                  \o AltMsgs(ll, gh[s], g2, prev, fns, cur) \o AltEntryMsgs(ll, prev, fns, cur)
                  \o (IF k = "rs" /\ ~cur.t.alt /\ cur.t.lim = -1 /\ ~ResizeTextOK(prev.t, cur.t)
                      THEN <<Msg("FAIL C10", ll, "resize altered the logical text or lost the cursor's place: cursor " \o S(CursorLogical(prev.t)) \o " -> " \o S(CursorLogical(cur.t)))>> ELSE <<>>)
@@ -285,6 +322,8 @@ Tags(e, prevs, p0) ==
   IF e.ev = "pf" THEN <<"conformance:parser">> \o (IF TokenMeaning(e.s).known THEN <<"TokenMeaning">> ELSE <<>>)
   ELSE IF e.ev = "sw" THEN <<"conformance:sweep-run">>
   ELSE IF e.ev = "rel" THEN <<"relation:" \o e.name>>
+  ELSE IF e.ev = "tcrel" THEN <<"relation:CollectorEq">>
+  ELSE IF e.ev \in {"tcfs", "tcflush"} THEN <<"conformance:collector">>
   ELSE IF e.ev = "text" THEN <<"conformance:text">>
   ELSE IF e.ev = "dump" THEN <<"conformance:dump-mirror">>
   ELSE IF e.ev = "rs" THEN <<"conformance:resize", "GeomOK", "ChangesSound", "Bound">>
@@ -300,22 +339,43 @@ Tags(e, prevs, p0) ==
            ELSE <<>>)
   ELSE IF e.ev = "panic" THEN <<"panic">>
   ELSE <<>>
-TraceInit == l = 1 /\ vts = <<>> /\ gh = <<>> /\ pp = InitP /\ cnt = <<>>
+\* ------------------------------------------------------ util::TextCollector (C14, C09)
+HandleTc(ll, e) ==
+  IF e.ev = "tcnew" THEN [tcs |-> Append(tcs, [vt |-> Fresh(e.cols, e.rows, e.lim), carry |-> <<>>, acc |-> <<>>]), msgs |-> <<>>]
+  ELSE IF e.ev = "tcfs" THEN
+    LET c == tcs[e.tc]  r == FeedStr(c.vt, e.s)  u == Unwrap(r.dr, c.carry) IN
+    [tcs |-> [tcs EXCEPT ![e.tc] = [vt |-> r.vt, carry |-> u.carry, acc |-> c.acc \o e.out]],
+     msgs |-> IF u.out = e.out THEN <<>> ELSE <<Msg("CONF", ll, "what=collector owners={\"C09\", \"C14\"} TextCollector::feed_str yields " \o S(Len(e.out)) \o " lines, specification " \o S(Len(u.out)))>>]
+  ELSE IF e.ev = "tcflush" THEN
+    LET c == tcs[e.tc]  want == CollectorFlush(c.vt.t.buf.lines, c.carry) IN
+    [tcs |-> [tcs EXCEPT ![e.tc].acc = @ \o e.out],
+     msgs |-> IF want = e.out THEN <<>> ELSE <<Msg("CONF", ll, "what=collector owners={\"C09\", \"C14\"} TextCollector::flush differs from the specification")>>]
+  ELSE \* tcrel: every collector of the list produced the same text
+    [tcs |-> tcs,
+     msgs |-> IF \A i \in 2..Len(e.tcs) : DropTrailingEmpty(tcs[e.tcs[i]].acc) = DropTrailingEmpty(tcs[e.tcs[1]].acc) THEN <<>>
+              ELSE <<Msg("FAIL C14", ll, "TextCollector text depends on the scrollback limit or the chunking")>>]
+
+TraceInit == l = 1 /\ vts = <<>> /\ gh = <<>> /\ pp = InitP /\ cnt = <<>> /\ tcs = <<>>
 TraceNext ==
   /\ l <= Len(Rec)
   /\ l' = l + 1
   /\ cnt' = Bump(cnt, Tags(Rec[l], IF "slot" \in DOMAIN Rec[l] /\ Rec[l].ev \in {"fs", "fc", "rs"} /\ Rec[l].slot <= Len(vts) THEN vts[Rec[l].slot] ELSE Dead, pp))
   /\ (l = Len(Rec) => PrintT("@@ COUNTS " \o ToJson(cnt')))
-  /\ IF Rec[l].ev \in {"pnew", "pf", "sw"}
+  /\ IF Rec[l].ev \in {"tcnew", "tcfs", "tcflush", "tcrel"}
+     THEN LET h == HandleTc(l, Rec[l]) IN
+          /\ tcs' = h.tcs /\ UNCHANGED <<vts, gh, pp>>
+          /\ \A i \in 1..Len(h.msgs) : PrintT(h.msgs[i])
+     ELSE IF Rec[l].ev \in {"pnew", "pf", "sw"}
      THEN LET h == HandleParser(l, Rec[l]) IN
-          /\ pp' = h.pp /\ UNCHANGED <<vts, gh>>
+          /\ pp' = h.pp /\ tcs' = tcs /\ UNCHANGED <<vts, gh>>
           /\ \A i \in 1..Len(h.msgs) : PrintT(h.msgs[i])
      ELSE LET h == Handle(l, Rec[l]) IN
           /\ vts' = h.vts
           /\ gh' = h.gh
           /\ pp' = pp
+          /\ tcs' = IF Rec[l].ev = "ep" THEN <<>> ELSE tcs
           /\ \A i \in 1..Len(h.msgs) : PrintT(h.msgs[i])
-TraceSpec == TraceInit /\ [][TraceNext]_<<l, vts, gh, pp, cnt>>
+TraceSpec == TraceInit /\ [][TraceNext]_<<l, vts, gh, pp, cnt, tcs>>
 
 (* Every event must have been consumed: initial state + one state per event.    *)
 TraceAccepted ==
